@@ -1,6 +1,32 @@
 /-
 Total correctness of the link commit (`lcommit`, the model of `link_to`'s `commit`) in the healthy
-semantics `Prog.run`.
+semantics `Prog.run`, for linkers without declared size / integrity (`l.opts.size = none`,
+`l.opts.sri = none`), by address (`l.key = none`) and keyed (`l.key = some k`).
+
+The three cases of what lives at the content address of the target's bytes:
+* `relink_replaces_old_link` (+ `_keyed`) — an earlier link, WHATEVER it points at (stale, dangling
+  or good): the commit succeeds and the address is re-pointed at `l.target` through the temp link
+  `cache/tmp/#<next>` + `rename`; `relink_tmp_clean`: nothing is left in `cache/tmp`;
+  `relink_keeps_existing`: every other existing node is unchanged.
+* `link_fresh_address` (+ `_keyed`) — nothing: the commit succeeds, the address links to `l.target`.
+* `link_keeps_regular_content` (+ `_keyed`) — a regular file: the commit succeeds, the file stays.
+Reading back: `relinked_address_reads_target` (`open` of the address), `relinked_address_readHash`
+(the library's verified `read_hash`), `relinked_key_reads_target` (keyed: `read` of the key).
+
+Hypotheses, all explicit: `hcp` — the address exists (`content_path` does not panic: ≥ 4 hex
+digits); `hd` — every ancestor of the address is absent or a directory; `ht` (relink only) — so are
+`cache/tmp` and its ancestors (`Refine.mkdirP_ok` needs exactly this for `create_dir_all`; the
+filesystem model has no global well-formedness invariant from which it would follow, not even from
+"a link lives at the address"); keyed: `hI` — `Refine.HealthyIndex` (ancestors of buckets creatable,
+buckets absent or settled files).  The frame is stated with `Grow` / `Grow2` / `Grow3`: a path keeps
+its node or turns from absent into a directory on the way to one of the directories the commit
+creates (address's directory, `cache/tmp`, bucket's directory).
+
+One remark on the frame of the relink: the temp name is `cache/tmp/#<fs.next>` and the model's
+`mkTempLink` (like `mkTemp`) writes it without looking; so that one path is `none` afterwards even if
+a stale node had been seeded under exactly that name — it is excluded from the frame and covered by
+`get … = none` instead (as in `CacheRefine.PutFrame` / `TmpClean` for writers).  With
+`fs.get (cache/tmp/#<fs.next>) = none` (the name is fresh) the path is simply unchanged.
 -/
 import Cacache.Lemmas.CacheRefine
 
@@ -627,5 +653,215 @@ theorem relinked_key_reads_target (l : Linker) (k : Bytes) (fs : FS) (cpath : Pa
   unfold readHash
   simp only [hcp, bind_eq, pure_eq, call, bind_sys, bind_done, run_sys_res, exec, hr, check_compute,
     Option.isSome_some, if_true, run_done_res]
+
+/-! ### non-vacuity: the hypotheses are satisfiable -/
+
+/-- Seeding one node that is not on the way to `d` keeps the chain to `d` creatable. -/
+theorem put_keeps_chain (fs : FS) (p d : Path) (n : Node) (hp : ¬ p <+: d)
+    (h : ∀ q, q ≠ [] → q <+: d → NoneOrDir fs q) :
+    ∀ q, q ≠ [] → q <+: d → NoneOrDir (fs.put p n) q := by
+  intro q hq hqd
+  have : q ≠ p := by intro e; subst e; exact hp hqd
+  unfold NoneOrDir
+  rw [FS.get_put_ne _ _ this]
+  exact h q hq hqd
+
+theorem empty_chain (d : Path) : ∀ q, q ≠ [] → q <+: d → NoneOrDir FS.empty q :=
+  fun _ _ _ => Or.inl rfl
+
+theorem contentPath_of_len (l : Linker) (hl : 4 ≤ (Bytes.hex (cfg.H l.algo l.data)).length) :
+    contentPath l.cache (Sri.compute cfg.H l.algo l.data) =
+      some (addrPath l.cache l.algo (Bytes.hex (cfg.H l.algo l.data))) := by
+  rw [contentPath_compute, if_neg (by omega)]
+
+/-- A digest function whose hex form has four digits, a by-address linker and a keyed one. -/
+def cfg0 : Cfg := { H := fun _ _ => [0, 0] }
+def l0 : Linker :=
+  { cache := [[99]], key := none, algo := .sha256, target := .abs [[116]], data := [1, 2, 3], pos := 0,
+    opts := {} }
+def l1 : Linker := { l0 with key := some [107] }
+
+theorem len0 (l : Linker) : 4 ≤ (Bytes.hex (cfg0.H l.algo l.data)).length := by
+  simp [cfg0, Bytes.hex]
+
+section
+variable (l : Linker) (hl : 4 ≤ (Bytes.hex (cfg.H l.algo l.data)).length)
+include hl
+
+/-- Statement 1 on the filesystem holding nothing but a (dangling) link at the address — for
+every digest function with ≥ 4 hex digits and every by-address linker without declarations. -/
+example (hk : l.key = none) (hs : l.opts.sri = none) (hz : l.opts.size = none) (t0 : Target) :
+    let cpath := addrPath l.cache l.algo (Bytes.hex (cfg.H l.algo l.data))
+    let fs := FS.empty.put cpath (.link t0)
+    (run env (lcommit cfg l) fs).1 = .ok (Sri.compute cfg.H l.algo l.data) ∧
+    (run env (lcommit cfg l) fs).2.1.get cpath = some (.link l.target) ∧
+    TmpClean l.cache fs (run env (lcommit cfg l) fs).2.1 := by
+  intro cpath fs
+  have hd := put_keeps_chain FS.empty cpath (FS.parent cpath) (.link t0)
+    (addr_not_prefix_parent _ _ _ _ _) (empty_chain _)
+  have ht := put_keeps_chain FS.empty cpath (l.cache ++ [dTmp]) (.link t0)
+    (addr_not_prefix_tmpDir _ _ _) (empty_chain _)
+  have h := relink_replaces_old_link cfg env l fs cpath t0 hk hs hz (contentPath_of_len cfg l hl) hd ht
+    (FS.get_put_same _ _ _)
+  exact ⟨h.1, h.2.1, relink_tmp_clean cfg env l fs cpath t0 hk hs hz (contentPath_of_len cfg l hl) hd ht
+    (FS.get_put_same _ _ _)⟩
+
+/-- Statement 2 on the empty filesystem. -/
+example (hk : l.key = none) (hs : l.opts.sri = none) (hz : l.opts.size = none) :
+    (run env (lcommit cfg l) FS.empty).1 = .ok (Sri.compute cfg.H l.algo l.data) ∧
+    (run env (lcommit cfg l) FS.empty).2.1.get
+      (addrPath l.cache l.algo (Bytes.hex (cfg.H l.algo l.data))) = some (.link l.target) := by
+  have h := link_fresh_address cfg env l FS.empty _ hk hs hz (contentPath_of_len cfg l hl)
+    (empty_chain _) rfl
+  exact ⟨h.1, h.2.1⟩
+
+/-- Statement 3 on the filesystem holding nothing but a regular file at the address. -/
+example (hk : l.key = none) (hs : l.opts.sri = none) (hz : l.opts.size = none) (b : Bytes) :
+    let cpath := addrPath l.cache l.algo (Bytes.hex (cfg.H l.algo l.data))
+    let fs := FS.empty.put cpath (.file b)
+    (run env (lcommit cfg l) fs).1 = .ok (Sri.compute cfg.H l.algo l.data) ∧
+    (run env (lcommit cfg l) fs).2.1.get cpath = some (.file b) := by
+  intro cpath fs
+  have hd := put_keeps_chain FS.empty cpath (FS.parent cpath) (.file b)
+    (addr_not_prefix_parent _ _ _ _ _) (empty_chain _)
+  have h := link_keeps_regular_content cfg env l fs cpath b hk hs hz (contentPath_of_len cfg l hl) hd
+    (FS.get_put_same _ _ _)
+  exact ⟨h.1, h.2.1⟩
+
+/-- Statement 1, keyed, on the filesystem holding nothing but a link at the address (its index
+area is empty, hence healthy). -/
+example (k : Bytes) (hk : l.key = some k) (hs : l.opts.sri = none) (hz : l.opts.size = none)
+    (t0 : Target) :
+    let cpath := addrPath l.cache l.algo (Bytes.hex (cfg.H l.algo l.data))
+    let fs := FS.empty.put cpath (.link t0)
+    (run env (lcommit cfg l) fs).1 = .ok (Sri.compute cfg.H l.algo l.data) ∧
+    (run env (lcommit cfg l) fs).2.1.get cpath = some (.link l.target) ∧
+    (run env (lcommit cfg l) fs).2.1.get (bucketPath cfg l.cache k) =
+      some (.file ((codec cfg).frame (mkRec k (linkOpts cfg l) (stamp env l.opts)))) := by
+  intro cpath fs
+  have hd := put_keeps_chain FS.empty cpath (FS.parent cpath) (.link t0)
+    (addr_not_prefix_parent _ _ _ _ _) (empty_chain _)
+  have ht := put_keeps_chain FS.empty cpath (l.cache ++ [dTmp]) (.link t0)
+    (addr_not_prefix_tmpDir _ _ _) (empty_chain _)
+  have hI0 : HealthyIndex cfg l.cache FS.empty :=
+    Refine.healthy_of_empty_cache cfg l.cache FS.empty (fun _ _ _ => Or.inl rfl) (fun _ _ _ => rfl)
+  have hI : HealthyIndex cfg l.cache fs :=
+    (index_untouched cfg (a := l.algo) (hx := Bytes.hex (cfg.H l.algo l.data)) [] hI0
+      (fun q hq _ => Or.inl (FS.get_put_ne _ _ hq))).1
+  have h := relink_replaces_old_link_keyed cfg env l k fs cpath t0 hk hs hz
+    (contentPath_of_len cfg l hl) hd ht hI (FS.get_put_same _ _ _)
+  refine ⟨h.1, h.2.1, ?_⟩
+  have hb := h.2.2.2.1
+  have : bytesAt fs (bucketPath cfg l.cache k) = [] := by
+    unfold bytesAt
+    rw [FS.get_put_ne _ _ (bucket_ne_addr cfg _ _ _ _)]
+    rfl
+  rw [hb, this, List.nil_append]
+
+end
+
+/-- Statement 4 on a concrete filesystem: a dangling link at the address and the target file
+`/t` outside the cache `/c`. -/
+example :
+    let cpath := addrPath l0.cache l0.algo (Bytes.hex (cfg0.H l0.algo l0.data))
+    let fs := (FS.empty.put cpath (.link (.rel [[120]]))).put [[116]] (.file [1, 2, 3])
+    (run env (lcommit cfg0 l0) fs).2.1.readFile cpath = .ok [1, 2, 3] ∧
+    (run env (readHash cfg0 l0.cache (Sri.compute cfg0.H l0.algo l0.data))
+      (run env (lcommit cfg0 l0) fs).2.1).1 = .ok [1, 2, 3] := by
+  intro cpath fs
+  have hne : ([[116]] : Path) ≠ cpath := by
+    intro e
+    have := congrArg List.length e
+    rw [addrPath_length] at this
+    simp at this
+  have hnp : ∀ d : Path, ¬ ([[116]] : Path) <+: l0.cache ++ d := by
+    intro d h
+    have := List.cons_prefix_cons.mp (show ([116] : Bytes) :: [] <+: [99] :: d from h)
+    simp at this
+  have hd := put_keeps_chain _ [[116]] (FS.parent cpath) (.file [1, 2, 3])
+    (by rw [parent_addr_eq]; exact hnp _)
+    (put_keeps_chain FS.empty cpath (FS.parent cpath) (.link (.rel [[120]]))
+      (addr_not_prefix_parent _ _ _ _ _) (empty_chain _))
+  have ht := put_keeps_chain _ [[116]] (l0.cache ++ [dTmp]) (.file [1, 2, 3]) (hnp _)
+    (put_keeps_chain FS.empty cpath (l0.cache ++ [dTmp]) (.link (.rel [[120]]))
+      (addr_not_prefix_tmpDir _ _ _) (empty_chain _))
+  have hold : fs.get cpath = some (.link (.rel [[120]])) := by
+    rw [FS.get_put_ne _ _ hne.symm, FS.get_put_same]
+  have hout : ¬ l0.cache <+: ([[116]] : Path) := by
+    intro h
+    have := List.cons_prefix_cons.mp (show ([99] : Bytes) :: [] <+: [116] :: [] from h)
+    simp at this
+  exact ⟨relinked_address_reads_target cfg0 env l0 fs cpath _ rfl rfl rfl
+      (contentPath_of_len cfg0 l0 (len0 l0)) hd ht hold [[116]] rfl (by simp) hout (FS.get_put_same _ _ _),
+    relinked_address_readHash cfg0 env l0 fs cpath _ rfl rfl rfl
+      (contentPath_of_len cfg0 l0 (len0 l0)) hd ht hold [[116]] rfl (by simp) hout (FS.get_put_same _ _ _)⟩
+
+/-- The keyed read-back on a concrete filesystem: key `k`, a dangling link at the address, the
+target file `/t` outside the cache `/c`, nothing in the index. -/
+example :
+    let cpath := addrPath l1.cache l1.algo (Bytes.hex (cfg0.H l1.algo l1.data))
+    let fs := (FS.empty.put cpath (.link (.rel [[120]]))).put [[116]] (.file [1, 2, 3])
+    (run env (read cfg0 l1.cache [107]) (run env (lcommit cfg0 l1) fs).2.1).1 = .ok [1, 2, 3] := by
+  intro cpath fs
+  have hne : ([[116]] : Path) ≠ cpath := by
+    intro e
+    have := congrArg List.length e
+    rw [addrPath_length] at this
+    simp at this
+  have hnp : ∀ d : Path, ¬ ([[116]] : Path) <+: l1.cache ++ d := by
+    intro d h
+    have := List.cons_prefix_cons.mp (show ([116] : Bytes) :: [] <+: [99] :: d from h)
+    simp at this
+  have hd := put_keeps_chain _ [[116]] (FS.parent cpath) (.file [1, 2, 3])
+    (by rw [parent_addr_eq]; exact hnp _)
+    (put_keeps_chain FS.empty cpath (FS.parent cpath) (.link (.rel [[120]]))
+      (addr_not_prefix_parent _ _ _ _ _) (empty_chain _))
+  have ht := put_keeps_chain _ [[116]] (l1.cache ++ [dTmp]) (.file [1, 2, 3]) (hnp _)
+    (put_keeps_chain FS.empty cpath (l1.cache ++ [dTmp]) (.link (.rel [[120]]))
+      (addr_not_prefix_tmpDir _ _ _) (empty_chain _))
+  have hold : fs.get cpath = some (.link (.rel [[120]])) := by
+    rw [FS.get_put_ne _ _ hne.symm, FS.get_put_same]
+  have hout : ¬ l1.cache <+: ([[116]] : Path) := by
+    intro h
+    have := List.cons_prefix_cons.mp (show ([99] : Bytes) :: [] <+: [116] :: [] from h)
+    simp at this
+  have hI0 : HealthyIndex cfg0 l1.cache FS.empty :=
+    Refine.healthy_of_empty_cache cfg0 l1.cache FS.empty (fun _ _ _ => Or.inl rfl) (fun _ _ _ => rfl)
+  have hI : HealthyIndex cfg0 l1.cache fs := by
+    refine (healthyIndex_grow cfg0 l1.cache hI0 ?_ ?_).1
+    · intro key
+      have h1 : bucketPath cfg0 l1.cache key ≠ [[116]] := by
+        intro e
+        have := congrArg List.length e
+        rw [bucket_length] at this
+        simp at this
+      rw [FS.get_put_ne _ _ h1, FS.get_put_ne _ _ (bucket_ne_addr cfg0 _ _ _ _)]
+    · intro key q _ hq
+      left
+      have h1 : q ≠ [[116]] := by
+        intro e; subst e
+        have hp : FS.parent (bucketPath cfg0 l1.cache key) = l1.cache ++
+            [dIndex, (keyHex cfg0 key).take 2, ((keyHex cfg0 key).drop 2).take 2] := by
+          simp [bucketPath, FS.parent, List.dropLast_append_of_ne_nil]
+        rw [hp] at hq
+        exact hnp _ hq
+      have h2 : q ≠ cpath := by
+        intro e; subst e; exact addr_not_prefix_parent_bucket cfg0 _ _ _ _ hq
+      rw [FS.get_put_ne _ _ h1, FS.get_put_ne _ _ h2]
+  exact relinked_key_reads_target cfg0 env l1 [107] fs cpath _ rfl rfl rfl
+    (contentPath_of_len cfg0 l1 (len0 l1)) hd ht hI hold (optsWF_default (by decide))
+    (by simp [l1, l0, Rec.u64Max]) [[116]] rfl (by simp) hout (FS.get_put_same _ _ _)
+
+#print axioms relink_replaces_old_link
+#print axioms relink_tmp_clean
+#print axioms relink_keeps_existing
+#print axioms link_fresh_address
+#print axioms link_keeps_regular_content
+#print axioms relinked_address_reads_target
+#print axioms relinked_address_readHash
+#print axioms relink_replaces_old_link_keyed
+#print axioms link_fresh_address_keyed
+#print axioms link_keeps_regular_content_keyed
+#print axioms relinked_key_reads_target
 
 end Cacache.LinkRefine
